@@ -88,7 +88,8 @@ pub fn main(args: &[String]) {
     let cat = catalog();
     // provider configurations: (name, tcp_base_workers, linger ms, udp workers)
     let configs: Vec<(&str, usize, u64, usize)> = vec![("blocking", 0, 0, 1), ("blocking", 2, 50, 2), ("blocking", 1, 0, 3), ("tokio", 0, 0, 0)];
-    for (provider, base, linger, udpw) in configs {
+    for (ci, (provider, base, linger, udpw)) in configs.into_iter().enumerate() {
+        let slow_conn = ci == 1 || ci == 3;      // one blocking configuration and Tokio
         let payload = *[512u16, 1232, 4096].choose(&mut r).unwrap();
         let mut server = Server::new(cat.clone());
         server.set_edns_udp_payload_size(payload).unwrap();
@@ -107,10 +108,17 @@ pub fn main(args: &[String]) {
         }
         std::thread::sleep(Duration::from_millis(100));
         out.emit(json!({"ev": "Cfg", "provider": provider, "tcp_base_workers": base, "linger_ms": linger, "udp_workers": udpw, "payload": payload, "port": port}));
+        // in the background: a connection whose requests are separated by waits that are each well within the 5 s read
+        // timeout but add up to more than it (the timeout is per message)
+        let slow = if slow_conn { let (server, provider) = (server.clone(), provider.to_string());
+            Some(std::thread::spawn(move || slow_connection(&server, addr, &provider))) } else { None };
         for _ in 0..n {
             tcp_connection(&mut r, &server, addr, provider, &mut out);
             udp_exchange(&mut r, &server, addr, provider, port, payload, &mut out);
         }
+        // one connection carrying more than 64 KiB of pipelined requests (the receive buffer is filled completely)
+        big_pipeline(&mut r, &server, addr, provider, &mut out);
+        if let Some(h) = slow { out.emit(h.join().unwrap()); }
         if provider == "blocking" {
             group.shut_down();
             group.await_shutdown();
@@ -184,6 +192,79 @@ fn tcp_connection(r: &mut StdRng, server: &Arc<Server<Cat>>, addr: SocketAddr, p
         }
     }
     out.emit(json!({"ev": "Tcp", "reset": reset || write_failed, "provider": provider, "reqs": reqs, "direct": expected, "segs": segs, "got": got, "closed": closed}));
+}
+
+/// 330 large requests (about 230 octets each) written in one go, read while writing so that neither side stalls.
+fn big_pipeline(r: &mut StdRng, server: &Arc<Server<Cat>>, addr: SocketAddr, provider: &str, out: &mut Out) {
+    let long = format!("{}.{}.{}.", "a".repeat(63), "b".repeat(63), "c".repeat(60));
+    let reqs: Vec<Vec<u8>> = (0..330).map(|i| {
+        let mut m = vec![(i >> 8) as u8, i as u8, 0, 0, 0, 1, 0, 0, 0, 0, 0, 0];
+        m.extend_from_slice(&w(&long));
+        m.extend_from_slice(&[0, *[1u8, 16].choose(r).unwrap(), 0, 1]);
+        m
+    }).collect();
+    let expected: Vec<Vec<u8>> = reqs.iter().map(|q| direct(server, q, Transport::Tcp)).collect();
+    let mut stream_out: Vec<u8> = Vec::new();
+    for q in &reqs {
+        stream_out.extend_from_slice(&(q.len() as u16).to_be_bytes());
+        stream_out.extend_from_slice(q);
+    }
+    let want: usize = expected.iter().map(|e| e.len() + 2).sum();
+    let sock = TcpStream::connect(addr).unwrap();
+    sock.set_nodelay(true).unwrap();
+    let mut wsock = sock.try_clone().unwrap();
+    let writer = std::thread::spawn(move || wsock.write_all(&stream_out).is_ok());
+    let mut rsock = sock;
+    rsock.set_read_timeout(Some(Duration::from_millis(15000))).unwrap();
+    let mut got: Vec<u8> = Vec::new();
+    let mut buf = vec![0u8; 70000];
+    let mut closed = false;
+    let mut reset = false;
+    while got.len() < want {
+        match rsock.read(&mut buf) {
+            Ok(0) => { closed = true; break; }
+            Ok(nr) => got.extend_from_slice(&buf[..nr]),
+            Err(e) => { if matches!(e.kind(), std::io::ErrorKind::ConnectionReset | std::io::ErrorKind::ConnectionAborted | std::io::ErrorKind::BrokenPipe) { closed = true; reset = true; } break; }
+        }
+    }
+    let wrote = writer.join().unwrap();
+    // every request has a response here, so the server has no reason to close: a reset or a failed write is reported as is
+    out.emit(json!({"ev": "Tcp", "provider": provider, "reset": false, "client_saw_reset": reset || !wrote, "reqs": [], "nreqs": reqs.len(), "direct": expected, "segs": [], "got": got, "closed": closed}));
+}
+
+/// Request, wait 2.7 s, request (in two halves 0.3 s apart), wait 2.7 s, request: every message arrives long before its own 5 s deadline.
+fn slow_connection(server: &Arc<Server<Cat>>, addr: SocketAddr, provider: &str) -> Value {
+    let mk = |id: u8| { let mut m = vec![0, id, 0, 0, 0, 1, 0, 0, 0, 0, 0, 0]; m.extend_from_slice(&w("www.example.test.")); m.extend_from_slice(&[0, 1, 0, 1]); m };
+    let reqs: Vec<Vec<u8>> = (1..=3).map(mk).collect();
+    let expected: Vec<Vec<u8>> = reqs.iter().map(|q| direct(server, q, Transport::Tcp)).collect();
+    let mut sock = TcpStream::connect(addr).unwrap();
+    sock.set_nodelay(true).unwrap();
+    sock.set_read_timeout(Some(Duration::from_millis(15000))).unwrap();
+    let mut got: Vec<u8> = Vec::new();
+    let mut closed = false;
+    let mut buf = vec![0u8; 4096];
+    for (i, q) in reqs.iter().enumerate() {
+        if i > 0 { std::thread::sleep(Duration::from_millis(2700)); }
+        // the second request is sent in two halves 0.3 s apart
+        let mut framed = (q.len() as u16).to_be_bytes().to_vec();
+        framed.extend_from_slice(q);
+        let half = if i == 1 { framed.len() / 2 } else { framed.len() };
+        if sock.write_all(&framed[..half]).is_err() { closed = true; break; }
+        if half < framed.len() {
+            std::thread::sleep(Duration::from_millis(300));
+            if sock.write_all(&framed[half..]).is_err() { closed = true; break; }
+        }
+        let want = got.len() + expected[i].len() + 2;
+        while got.len() < want {
+            match sock.read(&mut buf) {
+                Ok(0) => { closed = true; break; }
+                Ok(nr) => got.extend_from_slice(&buf[..nr]),
+                Err(_) => break,
+            }
+        }
+        if closed { break; }
+    }
+    json!({"ev": "Tcp", "provider": provider, "reset": false, "slow": true, "reqs": reqs, "direct": expected, "segs": [], "got": got, "closed": closed})
 }
 
 fn udp_exchange(r: &mut StdRng, server: &Arc<Server<Cat>>, addr: SocketAddr, provider: &str, port: u16, payload: u16, out: &mut Out) {
